@@ -346,7 +346,15 @@ func (w *world) checkSeed(s *subscriber) bool {
 	return true
 }
 
-func wt(n int64) *time.Time { t := time.Unix(2000, 1_000_000+n); return &t }
+// wt is the write time of the n-th generated write; every seventh is the zero time (an unset timestamp passed on by
+// a driver): a write time like any other, it is what the event and later seeds carry.
+func wt(n int64) *time.Time {
+	if n%7 == 3 {
+		return &time.Time{}
+	}
+	t := time.Unix(2000, 1_000_000+n)
+	return &t
+}
 
 // write executes op, advances the model and checks what every open subscriber received.
 func (w *world) write(op sm.Op) bool {
